@@ -608,7 +608,9 @@ func PreprocessDeclarationsPrelude(baseURL string, declarations []pa.Compound, p
 			contents, err := PreprocessDeclarationsPrelude(baseURL, pa.ParseBlocksContents(declaration.Content, false),
 				declarationPrelude)
 			if err != nil {
-				return nil, err
+				// an invalid nested rule is ignored alone, not with its parent rule
+				logger.WarningLogger.Printf("Invalid or unsupported nested selector '%s', %s \n", pa.Serialize(declaration.Prelude), err)
+				continue
 			}
 			out = append(out, contents...)
 		}
